@@ -75,3 +75,45 @@ package deprecatedstate
 //@   loop 1: invariant exhausted: !itValid ==> (forall j uint64 :: histAt(j) ==> j <= height)
 //@   ensures first_above: result1 == nil ==> (exists k uint64 :: histAt(k) && k > height && result0 == histVal(k) && (forall j uint64 :: histAt(j) && j > height ==> j >= k))
 //@   ensures head: (forall j uint64 :: histAt(j) ==> j <= height) ==> result1 != nil
+
+// ---- reverting a stored block (C04) -----------------------------------------------------------
+// The reverse diff of a block holds, for every entry of the block's diff, the value as of the
+// previous block. "Ask the head" (ErrCheckHeadState) is an answer of the history look-up, not a
+// failure: it means nothing was logged after that block, e.g. because the block wrote zero to a
+// never-written slot. GetReverseStateDiff must therefore never fail with it.
+//@ ghost func isCheckHead(err error) bool
+//@ extern func errors.Is
+//@   ensures target == ErrCheckHeadState ==> result == isCheckHead(err)
+//@   ensures err == nil ==> !result
+//@ func (*State).ContractStorageAt
+//@   trusted
+//@   logged
+//@ func (*State).ContractNonceAt
+//@   trusted
+//@   logged
+//@ func (*State).ContractClassHashAt
+//@   trusted
+//@   logged
+// The head accessors never answer "ask the head".
+//@ func (*State).ContractStorage
+//@   trusted
+//@   ensures result1 != nil ==> !isCheckHead(result1)
+//@ func (*State).ContractNonce
+//@   trusted
+//@   ensures result1 != nil ==> !isCheckHead(result1)
+//@ func (*State).ContractClassHash
+//@   trusted
+//@   ensures result1 != nil ==> !isCheckHead(result1)
+//@ func (*State).GetReverseStateDiff
+//@   props C04
+//@   arith int
+//@   nosafe
+//@   requires s != nil && diff != nil
+//@   modifies *
+//@   assigns calls_ContractStorageAt, arg_ContractStorageAt_contractAddress, arg_ContractStorageAt_storageLocation, arg_ContractStorageAt_height, calls_ContractNonceAt, arg_ContractNonceAt_contractAddress, arg_ContractNonceAt_height, calls_ContractClassHashAt, arg_ContractClassHashAt_contractAddress, arg_ContractClassHashAt_height
+//@   loop 1: invariant genesis: blockNumber == 0 ==> calls_ContractStorageAt == old(calls_ContractStorageAt) && calls_ContractNonceAt == old(calls_ContractNonceAt) && calls_ContractClassHashAt == old(calls_ContractClassHashAt)
+//@   loop 2: invariant genesis: blockNumber == 0 ==> calls_ContractStorageAt == old(calls_ContractStorageAt) && calls_ContractNonceAt == old(calls_ContractNonceAt) && calls_ContractClassHashAt == old(calls_ContractClassHashAt)
+//@   loop 3: invariant genesis: blockNumber == 0 ==> calls_ContractStorageAt == old(calls_ContractStorageAt) && calls_ContractNonceAt == old(calls_ContractNonceAt) && calls_ContractClassHashAt == old(calls_ContractClassHashAt)
+//@   loop 4: invariant genesis: blockNumber == 0 ==> calls_ContractStorageAt == old(calls_ContractStorageAt) && calls_ContractNonceAt == old(calls_ContractNonceAt) && calls_ContractClassHashAt == old(calls_ContractClassHashAt)
+//@   ensures never_ask_head: result1 != nil ==> !isCheckHead(result1)
+//@   ensures genesis: blockNumber == 0 ==> result1 == nil && calls_ContractStorageAt == old(calls_ContractStorageAt) && calls_ContractNonceAt == old(calls_ContractNonceAt) && calls_ContractClassHashAt == old(calls_ContractClassHashAt)
